@@ -65,6 +65,12 @@ def extra_docs():
             c["correlation"]["condition"]["percentile"] = 75
         c["correlation"]["timespan"] = {"event_count": "30s", "temporal": "2h", "value_sum": "1d", "value_avg": "1w", "value_median": "1M"}.get(t, "1y")
         docs.append(("corr", c))
+        # the smallest values a threshold and a percentile can take (falsy in Python)
+        c0 = copy.deepcopy(c)
+        c0["correlation"]["condition"] = dict(c0["correlation"]["condition"], gte=0)
+        if t == "value_percentile":
+            c0["correlation"]["condition"]["percentile"] = 0
+        docs.append(("corr", c0))
     f2 = copy.deepcopy(ns["FILTER"])
     f2["filter"]["rules"] = "any"
     docs.append(("filter", f2))
